@@ -62,6 +62,9 @@ ValueFamilies == <<
   [name |-> "gammad1.big",     n |-> Len(D1BigList)],
   [name |-> "besseli.series",  n |-> Len(BesSerList)],
   [name |-> "logbesseli.series", n |-> Len(LogBesSerList)],
+  [name |-> "polygamma.huge",  n |-> Len(PolyHugeList)],
+  [name |-> "polygamma.highrec", n |-> Len(PolyHighNs) * Len(PolyHighXs)],
+  [name |-> "zeta.refl",       n |-> Len(ZetaReflS)],
   [name |-> "class",           n |-> Len(ClassList)]
 >>
 
@@ -111,6 +114,9 @@ ValueCase(name, k) ==
     [] name = "gammad1.big"     -> GammaD1Big(D1BigList[k][1], D1BigList[k][2])
     [] name = "besseli.series"  -> BesSer(BesSerList[k][1], BesSerList[k][2])
     [] name = "logbesseli.series" -> LogBesSer(LogBesSerList[k][1], LogBesSerList[k][2])
+    [] name = "polygamma.huge"  -> PolygammaHuge(k)
+    [] name = "polygamma.highrec" -> PolygammaHighRec(PolyHighNs[((k - 1) \div Len(PolyHighXs)) + 1], PolyHighXs[((k - 1) % Len(PolyHighXs)) + 1])
+    [] name = "zeta.refl"       -> ZetaRefl(ZetaReflS[k])
     [] name = "class"           -> ClassCase(k)
     [] name = "mgamma.closed"   -> LET kk == MlgKs[((k - 1) \div 7) + 1] IN MgammaClosed(MlgX2(kk)[((k - 1) % 7) + 1], kk)
 
